@@ -321,7 +321,7 @@ def finish(ctx, mod):
                'detail': codec.enc(detail), 'signature': sig,
                'tier': ctx.tier, 'seed': ctx.seed}
         blob = json.dumps(doc, sort_keys=True, indent=1)
-        sha = hashlib.sha1(json.dumps([doc['part'], doc['case']], sort_keys=True).encode()).hexdigest()[:12]
+        sha = hashlib.sha1(json.dumps([doc['part'], doc['case'], doc['signature']], sort_keys=True).encode()).hexdigest()[:12]
         os.makedirs(rdir, exist_ok=True)
         path = os.path.join(rdir, '%s.json' % sha)
         with open(path, 'w') as f:
